@@ -260,6 +260,41 @@ fn run_hforms(v: &[u64]) {
     let id = d.push(&arr.to_vec());
     vassert!(ia == want && ib == want && ic == want && id == want, "VF:huffman.forms.index");
     vassert!(a.index(ia).into_owned() == arr && b.index(ib).into_owned() == arr && c.index(ic).into_owned() == arr && d.index(id).into_owned() == arr, "VF:huffman.forms.read");
+    // read items of another container (raw and encoded) as input form, and the hidden state a push leaves behind:
+    // the next generation built from a container fed through form f must equal the one built from the canonical twin
+    crate::section("VF:huffman.forms.read_item");
+    let items: [Vec<u16>; 2] = [vec![alpha[0], alpha[0], alpha[0], alpha[alpha.len() - 1]], vec![alpha[alpha.len() / 2], alpha[0]]];
+    let mut src_raw = HuffmanContainer::<u16>::default();
+    let mut src_enc = HuffmanContainer::merge_regions(std::iter::once(&t));
+    let sr: Vec<_> = items.iter().map(|x| src_raw.push(x.as_slice())).collect();
+    let se: Vec<_> = items.iter().map(|x| src_enc.push(x.as_slice())).collect();
+    let (mut canon2, mut from_raw, mut from_enc, mut mixed) = (mk(), mk(), mk(), mk());
+    for (k, x) in items.iter().enumerate() {
+        let want = canon2.push(x.as_slice());
+        let i1 = from_raw.push(src_raw.index(sr[k]));
+        let i2 = from_enc.push(src_enc.index(se[k]));
+        let i3 = if k == 0 { mixed.push(src_enc.index(se[k])) } else { mixed.push(x.clone()) };
+        vassert!(i1 == want && i2 == want && i3 == want, "VF:huffman.forms.read_item.index");
+        vassert!(from_raw.index(i1).into_owned() == *x && from_enc.index(i2).into_owned() == *x && mixed.index(i3).into_owned() == *x, "VF:huffman.forms.read_item.read");
+    }
+    crate::section("VF:huffman.forms.next_generation");
+    let cases: [(&HuffmanContainer<u16>, &HuffmanContainer<u16>, &[u16]); 7] = [
+        (&from_raw, &canon2, items[0].as_slice()),
+        (&from_enc, &canon2, items[0].as_slice()),
+        (&mixed, &canon2, items[0].as_slice()),
+        (&a, &canon, arr.as_slice()),
+        (&b, &canon, arr.as_slice()),
+        (&c, &canon, arr.as_slice()),
+        (&d, &canon, arr.as_slice()),
+    ];
+    for (f, reference, probe) in cases {
+        let mut gc = HuffmanContainer::merge_regions(std::iter::once(reference));
+        let want = gc.push(probe);
+        let mut g = HuffmanContainer::merge_regions(std::iter::once(f));
+        let got = g.push(probe);
+        vassert!(got == want, "VF:huffman.forms.next_generation.index");
+        vassert!(g.index(got).into_owned() == probe, "VF:huffman.forms.next_generation.read");
+    }
 }
 
 // =================================================================================================== Dictionary codec (C07)
@@ -674,7 +709,7 @@ pub fn harnesses() -> Vec<H> {
         H { name: "huffman_wrapped", props: &["C14", "C15"], nargs: 4, pre: pre_wrapped, doms: doms_wrapped, run: run_wrapped, panic_ok: false,
             bound: "Wrapped items, raw versus Huffman-encoded, 7 profiles x all pairs of 12 item shapes x 4 clone_onto targets: ==, partial_cmp, cmp against the owned vectors; into_owned / clone_onto / borrow_as; region-to-region push", kani: false },
         H { name: "huffman_forms", props: &["C20"], nargs: 2, pre: pre_hforms, doms: doms_hforms, run: run_hforms, panic_ok: false,
-            bound: "HuffmanContainer<u16> raw and coded: [B;N], &[B;N], Vec<B>, &Vec<B> versus &[B] on twins in the same state", kani: false },
+            bound: "HuffmanContainer<u16> raw and coded, 4 profiles: [B;N], &[B;N], Vec<B>, &Vec<B>, raw and encoded read items of another container versus &[B] on twins in the same state (indices, reads), and the next generation merged from each twin (index and read of a probe)", kani: false },
         H { name: "dictionary_quick", props: &["C07", "C01", "C02", "C04", "C08", "C10"], nargs: 7, pre: pre_dict, doms: doms_dict_quick, run: run_dict, panic_ok: false,
             bound: "CodecRegion<DictionaryCodec>: 8 x 2 training sets over 1..2 source regions; 20 probes (empty, dictionary entries, prefixes/extensions, first byte an assigned tag, eight one-byte strings) x 3; second merge generation; clear; every push refused or read back exactly, heavy hitters cost 1 byte", kani: false },
         H { name: "dictionary_full", props: &["C07"], nargs: 7, pre: pre_dict, doms: doms_dict, run: run_dict, panic_ok: false,
